@@ -3,6 +3,7 @@ import Huginn.Model.H2Frames
 import Huginn.Model.Hpack
 import Huginn.Model.Utf8
 import Huginn.Model.Akamai
+import Huginn.Model.Http1
 /-
 Model of the HTTP/2 message path of huginn-net-http, as it is:
 
@@ -378,49 +379,14 @@ def renderSig (horder habsent : List SigHdr) (expsw : Bytes) : Bytes :=
 
 /-! ### http_languages.rs -/
 
-/-- a decimal q-value `[+]D*[.D*]` with at least one digit, ≤ 3 integer and ≤ 3 fraction digits,
-as thousandths (such values are ordered by `f32` exactly as by their rational value);
-`none` = `parse::<f32>()` fails or the string is outside the modelled grammar -/
-def parseQ (s : Bytes) : Option Nat :=
-  let d := match s with | 43 :: r => r | _ => s
-  let ip := d.takeWhile (fun b => 48 ≤ b && b ≤ 57)
-  let rest := d.drop ip.length
-  let fp : Option Bytes := match rest with
-    | [] => some []
-    | 46 :: f => if f.all (fun b => 48 ≤ b && b ≤ 57) then some f else none
-    | _ => none
-  match fp with
-  | none => none
-  | some f =>
-    if ip.isEmpty && f.isEmpty then none
-    else if ip.length > 3 || f.length > 3 then none
-    else
-      let num := fun (x : Bytes) => x.foldl (fun acc b => acc * 10 + (b.toNat - 48)) 0
-      some (num ip * 1000 + num (f ++ List.replicate (3 - f.length) 48))
+/-- `get_highest_quality_language` — one definition for HTTP/1 and HTTP/2: the model of the
+repaired function in Model/Http1.lean (C05: weight = trim, strip one `q=`/`Q=`, `parse::<f32>`;
+primary tag lower-cased). Outer `none`: a weight literal outside the modelled `f32` grammar
+(exponent, `inf`, `nan`). -/
+def highestLanguage? (v : Bytes) : Option (Option Bytes) := Huginn.Http1.highestQualityLanguage v
 
-/-- strip every leading "q=" (`trim_start_matches("q=")`) -/
-def stripQ : Nat → Bytes → Bytes
-  | 0, s => s
-  | n + 1, 113 :: 61 :: r => stripQ n r
-  | _, s => s
-
-/-- `get_highest_quality_language` -/
-def highestLanguage (v : Bytes) : Option Bytes :=
-  let cands := ((splitOn 44 v).zipIdx).filterMap fun (part, i) =>
-    let segs := splitOn 59 part
-    let full := trimAscii (segs.headD [])
-    if full.isEmpty then none
-    else
-      let code := (splitOn 45 full).headD []
-      let q := match segs with
-        | _ :: q :: _ => (parseQ (stripQ q.length q)).getD 1000
-        | _ => 1000
-      (Gen.H2Lists.languages.lookup code).map (fun name => (q, i, name))
-  -- max by quality, ties → earliest
-  let best := cands.foldl (fun (acc : Option (Nat × Nat × Bytes)) c =>
-    match acc with
-    | none => some c
-    | some a => if c.1 > a.1 then some c else some a) none
-  best.map (·.2.2)
+/-- total version used as the `lang` parameter of the message model (an unmodelled weight literal
+counts as "no language": such inputs are not generated, and would show as a model difference) -/
+def highestLanguage (v : Bytes) : Option Bytes := (highestLanguage? v).getD none
 
 end Huginn.H2
